@@ -46,6 +46,8 @@ def instances(tier, seed):
                         out.append(dict(name=f"flow:find{find}:replace{repl}:replicate{rep}:mic{mic}:extra{extra}", family='flow', find=find, repl=repl, rep=rep,
                                         mic=mic, pp=(extra == 1), charge=(extra == 2), euc=(extra == 3), dump=(extra == 3 and find == 1),
                                         insuf=['.cif', '.lmpdat', '.cml', '.xyz'][k % 4], outsuf=['.lmpdat', '.cif', '.mol', '.pdb'][(k // 2) % 4], cost=2))
+    out.append(dict(name='flow:replace:library-raises-its-overlap-error', family='flow', find=1, repl=1, rep=0, mic=0, insuf='.cif', outsuf='.lmpdat', replace_raises=True, cost=2))
+    out.append(dict(name='flow:replace:replicate:library-raises-its-overlap-error', family='flow', find=1, repl=1, rep=1, mic=0, insuf='.lmpdat', outsuf='.cif', replace_raises=True, cost=2))
     out.append(dict(name='flow:framework-element', family='framework-element', find=0, repl=0, rep=0, mic=0, fw='C', insuf='.cif', outsuf='.lmpdat', cost=1))
     return out
 
@@ -116,6 +118,8 @@ def make_stubs(ctx, rec, widths, ortho):
 
     def replace_stub(atoms, search, replace, **kw):
         rec.calls.append(('replace', atoms.tag, search.tag, replace.tag, kw))
+        if rec.replace_raises is not None and not kw.get('ignore_atoms_should_not_be_deleted_twice'):
+            raise rec.replace_raises()       # what the library does when two matches would remove the same atom
         return FakeAtoms(('replaced', atoms.tag))
 
     aseio = types.SimpleNamespace(read=lambda p, **kw: (rec.calls.append(('ase_read', str(p), kw)) or types.SimpleNamespace(positions=[7, 8], tagp=str(p))))
@@ -147,6 +151,7 @@ def body(ctx, p):
     if fam == 'e2e':
         return e2e_body(ctx, p)
     rec = Rec()
+    rec.replace_raises = ctx.ms.mofun.AtomsShouldNotBeDeletedTwice if p.get('replace_raises') else None
     widths = [ctx.real(f"w{k}", 4, 30) for k in range(3)]
     ortho = True if not p.get('mic') else bool(ctx.choose(2, 'ortho'))
     FakeAtoms, find_stub, replace_stub, aseio = make_stubs(ctx, rec, widths, ortho)
@@ -180,11 +185,20 @@ def body(ctx, p):
                          framework_element=p.get('fw'), pp=bool(p.get('pp')))
         except AttributeError as ex:
             err = str(ex)
+        except ctx.ms.mofun.AtomsShouldNotBeDeletedTwice:
+            err = 'overlap-error-propagated'
     finally:
         for k, v in saved.items():
             setattr(CLI, k, v)
     calls = rec.calls
     ctx.observe('n_calls', len(calls))
+    if p.get('replace_raises'):
+        # the same files and options through the API raise the overlap error and produce no structure: so must the command line
+        nrep = [c for c in calls if c[0] == 'replace']
+        ctx.require('an overlap error of the library reaches the caller of the command line: nothing is written, the replacement is not retried with other options',
+                    err == 'overlap-error-propagated' and not any(c[0] in ('save', 'ase_write') for c in calls) and len(nrep) == 1
+                    and not nrep[0][4].get('ignore_atoms_should_not_be_deleted_twice'), detail=dict(error=err, calls=[c[0] for c in calls]))
+        return
     if fam == 'framework-element':
         ctx.require('--framework-element reaches the operation it names (no AttributeError)', err is None, detail=dict(error=err))
         return
